@@ -178,28 +178,34 @@ def ex_encoding(ctx, cats, placeholders, header, spelling, full=True):
             pass
 
 
-def ex_reject(ctx, cats, swap_at):
-    """Swap two adjacent non-empty catalog blocks: ids decrease -> must be rejected (ValueError)."""
+def ex_reject(ctx, cats, swap_at, mode="swap", header=False):
+    """Decreasing ids must be rejected (ValueError). mode 'swap': two adjacent non-empty catalog blocks swapped; 'placeholder-back': a well-formed
+    file in which, after the block of catalog swap_at+1, a placeholder row for the smaller id swap_at (or 0) follows."""
     from csep.core.catalogs import CSEPCatalog
     cats = [[tuple(e) for e in c] for c in cats]
     tmp = tempfile.mkdtemp(prefix="c12r-", dir=os.environ.get("VERIF_TMP", "/var/tmp"))
     path = os.path.join(tmp, "forecast.csv")
     try:
         order = list(range(len(cats)))
-        order[swap_at], order[swap_at + 1] = order[swap_at + 1], order[swap_at]
+        if mode == "swap":
+            order[swap_at], order[swap_at + 1] = order[swap_at + 1], order[swap_at]
         with open(path, "w", newline="") as f:
             w = csv.writer(f)
+            if header:
+                w.writerow(HEADER)
             for cid in order:
                 for (eid, ms, lat, lon, depth, mag) in cats[cid]:
                     w.writerow([repr(lon), repr(lat), repr(mag), fmt_time(ms, True), repr(depth), cid, eid])
-        rc = {"exec": "reject", "args": {"cats": cats, "swap_at": swap_at}}
+                if mode != "swap" and cid == swap_at + 1:
+                    w.writerow(["", "", "", "", "", swap_at if mode == "placeholder-back" else 0, ""])
+        rc = {"exec": "reject", "args": {"cats": cats, "swap_at": swap_at, "mode": mode, "header": header}}
         ctx.current_case = rc
         ok, res, tb = ctx.call(lambda: [decoded(c) for c in CSEPCatalog.load_ascii_catalogs(path)])
         ctx.mon("stream:rejection", 1)
         ctx.count(1)
         if ok:
             ctx.violate("file with decreasing catalog ids was not rejected", rc, observed=[s[0] for s in res], expected="ValueError",
-                        tags={"clause": "rejection"})
+                        tags={"clause": "rejection", "mode": mode, "header": header})
         elif not isinstance(res, ValueError):
             ctx.violate("file with decreasing catalog ids raised something other than the documented rejection", rc, observed=repr(res),
                         tags={"clause": "rejection", "exc": type(res).__name__})
@@ -278,4 +284,4 @@ def run(ctx):
         r = ctx.rng("c12rej", j)
         n = int(r.integers(2, 7))
         cats = [[mk_event(r, i * 10 + q) for q in range(int(r.integers(1, 3)))] for i in range(n)]
-        ex_reject(ctx, cats, int(r.integers(0, n - 1)))
+        ex_reject(ctx, cats, int(r.integers(0, n - 1)), mode=["swap", "placeholder-back", "placeholder-zero"][j % 3], header=bool(j % 2))
